@@ -95,7 +95,7 @@ BIN = {  # base operation -> (lean spec fn, family, property, preconditions on (
     "shr": ("Spec.shr", "shift", "C01", ["ge0:y", "small:y:100000"]),
     "gcd": ("Spec.gcd", "gcd", "C01", []),
     "lcm": ("Spec.lcm", "gcd", "C01", []),
-    "pow": ("Spec.pow", "pow", "C01", ["ge0:y", "small:y:300"]),
+    "pow": ("Spec.pow", "pow", "C01", ["ge0:y", "small:y:64"]),
     # Euclidean-ring view of ZRing<Integer>
     "quo": ("Spec.edivQ", "div", "C02", ["nz:y"]),
     "erem": ("Spec.emodR", "div", "C02", ["nz:y"]),
@@ -228,17 +228,17 @@ def spec_for(t):
         return S(names[0], ["(Spec.sub %s 1)" % names[0]], [], "addsub")
     # ---------------- comparisons
     if base[3:] in CMP and base.startswith("op_") and len(codes) == 2 and nouts == 0:
-        return S("(Spec.b2i (%s %s %s))" % (names[0], CMP[base[3:]], names[1]), [], [], "compare")
+        return S("(Spec.b2i (%s %s %s))" % (names[0], CMP[base[3:]], names[1]), [], [], "compare", cmp="truthy")
     if ring and base in ZRING_CMP and len(codes) == 2 and nouts == 0:
-        return S("(Spec.b2i (%s %s %s))" % (names[0], ZRING_CMP[base], names[1]), [], [], "compare")
+        return S("(Spec.b2i (%s %s %s))" % (names[0], ZRING_CMP[base], names[1]), [], [], "compare", cmp="truthy")
     if base == "compare" and len(codes) == 2 and nouts == 0:
-        return S("(Spec.sgn (%s - %s))" % (names[0], names[1]), [], [], "compare")
+        return S("(Spec.sgn (%s - %s))" % (names[0], names[1]), [], [], "compare", cmp="sign")
     if base == "absCompare" and len(codes) == 2 and nouts == 0:
-        return S("(Spec.sgn (Spec.iabs %s - Spec.iabs %s))" % (names[0], names[1]), [], [], "compare")
+        return S("(Spec.sgn (Spec.iabs %s - Spec.iabs %s))" % (names[0], names[1]), [], [], "compare", cmp="sign")
     UN = {"isZero": "{x} = 0", "nonZero": "{x} ≠ 0", "isOne": "{x} = 1", "isMOne": "{x} = -1", "isOdd": "{x} % 2 = 1",
           "isUnit": "{x} = 1 ∨ {x} = -1"}
     if base in UN and len(codes) == 1 and nouts == 0:
-        return S("(Spec.b2i (%s))" % UN[base].format(x=names[0]), [], [], "compare")
+        return S("(Spec.b2i (%s))" % UN[base].format(x=names[0]), [], [], "compare", cmp="truthy")
     # ---------------- Euclidean division with both outputs
     if base in ("divmod", "quoRem") and len(codes) == 4 and nouts == 2:
         q = "(Spec.edivQ %s %s)" % (names[2], names[3])
@@ -264,10 +264,10 @@ def spec_for(t):
     # ---------------- powers
     if base == "powmod" and len(codes) == 4 and codes[0] == "Z" and nouts == 1:
         e = "(Spec.powmod %s %s %s)" % (names[1], names[2], names[3])
-        return S(e, [e], [("ge0", names[2]), ("nz", names[3])], "pow")
+        return S(e, [e], [("ge0", names[2]), ("small", names[2], 2000), ("nz", names[3])], "pow")
     if base == "powmod" and len(codes) == 3 and nouts == 0:
         e = "(Spec.powmod %s %s %s)" % (names[0], names[1], names[2])
-        return S(e, [], [("ge0", names[1]), ("nz", names[2])], "pow")
+        return S(e, [], [("ge0", names[1]), ("small", names[1], 2000), ("nz", names[2])], "pow")
     if base == "sqrt" and len(codes) == 2 and codes[0] == "Z" and nouts == 1:
         e = "(Spec.isqrt %s)" % names[1]
         return S(e, [e], [("ge0", names[1])], "pow")
